@@ -150,7 +150,9 @@ PROPS = {
                    {"name": "C03", "quick": 96, "thorough": 3000, "workers": 2, "config": "[network]\ncache_size = 1\n"},
                    {"name": "C03", "quick": 96, "thorough": 3000, "workers": 2, "config": "[network]\ncache_size = 2\n"},
                    {"name": "C03", "quick": 96, "thorough": 3000, "workers": 2, "config": "[network]\ncache_size = 3\n"},
-                   {"name": "C03", "quick": 96, "thorough": 3000, "workers": 2, "config": "[network]\ncache_size = 5\n"}],
+                   {"name": "C03", "quick": 96, "thorough": 3000, "workers": 2, "config": "[network]\ncache_size = 5\n"},
+                   # several askers of one URL at once, document fetches and webfinger lookups mixed
+                   {"name": "C03same", "quick": 48, "thorough": 1500, "workers": 8, "config": "[network]\ntimeout_seconds = 1\n"}],
         "rule": "status / Content-Type / Location lines and header blocks from a grammar with mutations (case, blanks, CR, missing newline, odd versions and codes); worlds of 1..4 documents and 0..22 redirects over five loopback TLS hosts plus a host reached by name, one by IPv6 literal and one on the default port "
                 "(relative ('x', './x', '../d/x', '//host/x') and cross-host Locations, Locations with fragments, non-https hops, missing/unparsable Location, two Location lines, a Location on a 2xx/4xx response, self loops and cycles, every 3xx code from 300 to 310 and 399, status codes next to 200-203, "
                 "odd status lines, content types, bodies incl. nesting beyond the decoder's limit, two values, duplicate keys, a BOM) under redirect budgets 0, 1, 2, 3, 5 and 20 with chains of budget-1, budget, budget+1 and budget+2 hops fetched cold, with the final document cached, with the last redirect cached and with every link cached; "
